@@ -408,12 +408,11 @@ def main_jobs(ctx, cases):
 
 
 def par(fn, items):
-    import multiprocessing as mp
+    from core import fork_map
     items = list(items)
     if len(items) < 8:
         return [fn(x) for x in items]
-    with mp.get_context("fork").Pool(16) as pool:
-        return pool.map(fn, items, chunksize=max(1, len(items) // 256))
+    return fork_map(fn, items, nproc=16, chunksize=max(1, len(items) // 256))
 
 
 def _ask(shard):
